@@ -141,7 +141,28 @@ def run_one(job, with_tests=True):
         if not with_tests:
             rec["status"] = "undetected"; return rec
         env = dict(os.environ, CARGO_TARGET_DIR=worker_target(), CARGO_NET_OFFLINE="true")
-        t = subprocess.run(["cargo", "test", "--workspace", "--no-fail-fast", "--offline", "-q"], cwd=dst, capture_output=True, text=True, env=env, timeout=900)
+        # own process group, killed as a whole on timeout: a mutant that makes a test spin must not leave the test binary behind
+        import signal as _sig
+        pr = subprocess.Popen(["cargo", "test", "--workspace", "--no-fail-fast", "--offline", "-q"], cwd=dst, stdout=subprocess.PIPE, stderr=subprocess.PIPE, text=True, env=env,
+                              start_new_session=True)
+        try:
+            so, se = pr.communicate(timeout=600)
+        except subprocess.TimeoutExpired:
+            try:
+                os.killpg(pr.pid, _sig.SIGKILL)
+            except ProcessLookupError:
+                pass
+            pr.wait()
+            rec["status"] = "tests-timeout"; return rec
+        finally:
+            try:
+                os.killpg(pr.pid, _sig.SIGKILL)
+            except (ProcessLookupError, PermissionError):
+                pass
+
+        class _T:
+            pass
+        t = _T(); t.returncode = pr.returncode; t.stdout = so
         if t.returncode != 0:
             rec["status"] = "tests-kill" if "test result" in t.stdout else "nobuild-tests"
         else:
